@@ -224,6 +224,24 @@ class FidelitySelf(Harness):
         S.prove("fidelity-with-sign-flipped-state-is-0", abs(f2) <= 1e-9)
 
 
+class FidelitySelfPinned(FidelitySelf):
+    """fidelity(T, T) on ONE Pauli pattern with symbolic signs -- the consequence of known finding F16 (inverse_circuit)
+    for this property"""
+
+    weight = 5
+
+    def declare(self, S):
+        from vf.common import declare_pinned_stabilizer
+        n = len(self.labels)
+        a = declare_clifford(S, n, tag="A", destab_iphase=False)
+        lab = {"I": (0, 0), "X": (1, 0), "Y": (1, 1), "Z": (0, 1)}
+        for i, row in enumerate(self.labels):
+            for j, ch in enumerate(row):
+                S.assume(O.eq_bits(a["table"][n + i, j], lab[ch][0]))
+                S.assume(O.eq_bits(a["table"][n + i, n + j], lab[ch][1]))
+        return a
+
+
 class RowSum(Harness):
     """linalg.row_sum / stabilizer.tab_row_sum sign rule vs the oracle product (Hermitian commuting rows)"""
 
@@ -312,6 +330,8 @@ def plan(tier):
     for n in ([2, 3, 4] if q else [2, 3, 4, 5, 6]):
         jobs.append((RowSum(n=n, commuting=True), {}))
         jobs.append((RowSum(n=n, commuting=False), {}))
+    from props.c11 import F16_LABELS
+    jobs.append((FidelitySelfPinned(n=5, labels=F16_LABELS), {}))
     jobs.append((FidelitySelf(n=1), {}))
     jobs.append((FidelitySelf(n=2), {}))
     if q:
